@@ -237,8 +237,23 @@ def workloads():
                               {"a": "reduce", "items_limit": 1, "evicts": [1, 2]}]), 1)
     w["memory_clear"] = ([S(1, [C(1), C(2)])], S(1, [{"a": "clear"}, C(1)]), 1)
     w["memory_clear_same_process"] = ([], S(1, [C(1), {"a": "clear"}, C(1)]), 1)
+    # reduce_size with every combination of limits on an EMPTY store (fresh, and emptied by Memory.clear)
+    w["reduce_empty"] = ([], S(1, reduce_combos() + [C(1)]), 1)
+    w["reduce_after_clear"] = ([S(1, [C(1), C(2)])], S(1, [{"a": "clear"}] + reduce_combos()[3:] + [C(1)]), 1)
     w["func_clear"] = ([S(1, [C(1), C(2)])], S(1, [{"a": "fclear"}, C(2)]), 1)
     return w
+
+
+def RED(**kw):
+    d = {"a": "reduce", "evicts": [], "items_limit": None, "bytes_limit": None, "age_s": None}
+    d.update(kw)
+    return d
+
+
+def reduce_combos():
+    """every non-empty combination of the three limits (generous: nothing has to be evicted)"""
+    return [RED(bytes_limit="1G" if m & 1 else None, items_limit=1000 if m & 2 else None,
+                age_s=10 ** 9 if m & 4 else None) for m in range(1, 8)]
 
 
 RECOVER_KEYS = [1, 2, 3]
@@ -361,6 +376,8 @@ def extra_recoveries():
         ("probe", [x for k in ks for x in ({"a": "check", "k": k}, {"a": "mr", "k": k}, C(k))], None, 11),
         ("probe_cb", [x for k in ks for x in ({"a": "check", "k": k}, {"a": "mr", "k": k}, C(k))], "valid", 3),
         ("shelve_clear", [{"a": "shelve_clear_call", "k": k} for k in ks], None, 1),
+        # reduce_size on whatever the crash left (often an empty store), every combination of limits, then calls
+        ("reduce", reduce_combos() + [C(k) for k in ks], None, 0),
     ]
 
 
@@ -410,10 +427,14 @@ def judge_extras(prep, res):
             bad.append(("read-back %s: the cached function could not be built: %s" % (x["tag"], r["results"]), False))
             continue
         for a, o in zip(acts, r["results"]):
-            k = a["k"]
-            what = "%s(%d) [%s, callback=%s] in a fresh process after the crash" % (a["a"], k, x["tag"], x["sess"].get("cb"))
+            k = a.get("k", -1)
+            what = "%s(%s) [%s, callback=%s] in a fresh process after the crash" % (
+                a["a"], k if k >= 0 else "bytes=%s items=%s age=%s" % (a.get("bytes_limit"), a.get("items_limit"), a.get("age_s")),
+                x["tag"], x["sess"].get("cb"))
             if "raise" in o:
                 bad.append(("%s raised %s: %s" % (what, o["raise"], o.get("msg", "")), False))
+            elif a["a"] == "reduce":
+                pass                      # returned without raising
             elif a["a"] == "check":
                 if not isinstance(o.get("check"), bool):
                     bad.append(("%s did not return a bool: %s" % (what, o), False))
